@@ -41,6 +41,11 @@ structure Cfg where
   pollAsksHook : Bool := true       -- `wait_pid`: the ECHILD branch is `while _pid_exists(pid): …sleep…` then `return None`
   hookDefaultIsKill : Bool := true  -- the default of `_pid_exists` is `_psposix.pid_exists`, which asks `os.kill(pid, 0)` and nothing else
   linuxWaitPassesNoHook : Bool := true -- `_pslinux.Process.wait` hands `wait_pid` the pid, the timeout and the name only
+  -- (seeded round 5, C15-8) WHICH clock each deadline computation reads; obligation `cfg_steady_clock` (Model/C15Clock.lean)
+  stopReadsSteady : Bool := true    -- `wait_pid`: the clock read in `stop_at = <clock>() + timeout` is the steady (monotonic) one
+  checkReadsSteady : Bool := true   -- `wait_pid`: the clock read in the deadline check of `sleep()` is the steady one
+  procsDeadlineSteady : Bool := true -- `wait_procs`: the clock read in `deadline = <clock>() + timeout` is the steady one
+  procsSliceSteady : Bool := true   -- `wait_procs`: the clock read in `timeout = min(deadline - <clock>(), max_timeout)` is the steady one
 
 def Cfg.i0 (c : Cfg) : Rat := (c.i0n : Rat) / (c.i0d : Rat)
 def Cfg.cap (c : Cfg) : Rat := (c.capn : Rat) / (c.capd : Rat)
